@@ -167,6 +167,8 @@ func (s *supARFO) childStarted(cs supChildSpec, pid gen.PID) supAction {
 		return action
 	}
 
+	// the remaining specs are disabled (or running): nothing left to start
+	s.mode = 0 // normal
 	return action
 }
 
